@@ -87,6 +87,12 @@ def dump(top):
     owner = getattr(x, "__self__", None)
     return f"{repr(owner) if hasattr(owner, '_dsl') else '?'}::{getattr(x, '__name__', '?')}"
   D["upblk_calls"] = sorted((bk(b), sorted(mn(x) for x in v)) for b, v in calls.items() if v)
+  # connections each component made, as (name, name) pairs: multiset (the order among re-created connections is not specified)
+  co = []
+  for c in top.get_all_components():
+    for (x, y) in c.get_connect_order():
+      co.append(tuple(sorted((nm(x), nm(y)))))
+  D["connect_order_pairs"] = sorted(co)
   # identity: every object the metadata refers to must be the one its name denotes in THIS design (a stale object of a
   # removed component has the same name as its successor)
   refs = []
@@ -348,8 +354,19 @@ class StageCL(Component):
     s.p.in_ //= s.in_
     s.out //= s.c.out
     connect(s.p.send, s.c.recv)
+class StageM(Component):
+  @non_blocking(lambda s: True)
+  def recv(s, v):
+    s.nxt = int(v)
+  def construct(s, k):
+    s.out = OutPort(8)
+    s.nxt = 0
+    @update_ff
+    def up_out():
+      s.out <<= (s.nxt + k) & 255
+    s.add_constraints( M(s.recv) < U(up_out) )
 class Chain(Component):
-  def construct(s, classes, ks, lb=None, tie=None):
+  def construct(s, classes, ks, lb=None, tie=None, mc=None):
     s.in_ = InPort(8); s.out = OutPort(8)
     s.stage = [c(k=k) for c, k in zip(classes, ks)]
     s.stage[0].in_ //= s.in_
@@ -369,15 +386,23 @@ class Chain(Component):
       s.lb = lb[0](k=lb[1]); s.lbo = OutPort(8)
       s.lb.in_ //= s.lb.out
       s.lbo //= s.lb.out
+    if mc is not None:
+      # a CL stage whose method port the PARENT connects to a producer
+      s.pp = Prod(); s.mc = StageM(k=mc[1]); s.mco = OutPort(8)
+      s.pp.in_ //= s.in_
+      connect(s.pp.send, s.mc.recv)
+      s.mco //= s.mc.out
     if tie is not None:
       # a stage whose input the parent ties to a constant
       s.tie = tie[0](k=tie[1]); s.tieo = OutPort(8)
       s.tie.in_ //= 5
       s.tieo //= s.tie.out
 class Outer(Component):
-  def construct(s, classes, ks, lb=None, tie=None):
-    s.in_ = InPort(8); s.out = OutPort(8); s.lbo = OutPort(8); s.tieo = OutPort(8)
-    s.ch = Chain(classes, ks, lb, tie)
+  def construct(s, classes, ks, lb=None, tie=None, mc=None):
+    s.in_ = InPort(8); s.out = OutPort(8); s.lbo = OutPort(8); s.tieo = OutPort(8); s.mco = OutPort(8)
+    s.ch = Chain(classes, ks, lb, tie, mc)
+    if mc is not None: s.mco //= s.ch.mco
+    else: s.mco //= 0
     s.ch.in_ //= s.in_; s.out //= s.ch.out
     if lb is not None: s.lbo //= s.ch.lbo
     else: s.lbo //= 0
@@ -398,7 +423,9 @@ def run_cl2_case(sh, case):
     ks = [rng.randrange(1, 9) for _ in range(n)]
     cls_of = {"RTL": mod.StageRTL, "CL": mod.StageCL}
     extra = {"lb": [rng.choice(["RTL", "CL"]), rng.randrange(1, 9)] if rng.random() < 0.5 else None,
-             "tie": [rng.choice(["RTL", "CL"]), rng.randrange(1, 9)] if rng.random() < 0.5 else None}
+             "tie": [rng.choice(["RTL", "CL"]), rng.randrange(1, 9)] if rng.random() < 0.5 else None,
+             "mc": ["M", rng.randrange(1, 9)] if rng.random() < 0.5 else None}
+    cls_of["M"] = mod.StageM
     nested = rng.random() < 0.5           # the chain sits one level below the top: replaced list elements are at depth 2
     Cls = mod.Outer if nested else mod.Chain
     pre = "top.ch." if nested else "top."
@@ -416,9 +443,10 @@ def run_cl2_case(sh, case):
     chA = topA.ch if nested else topA
     steps = []
     final = list(kinds)
-    slots = list(range(n)) + [a for a in ("lb", "tie") if extra[a] is not None]
+    slots = list(range(n)) + [a for a in ("lb", "tie", "mc") if extra[a] is not None]
     for _ in range(rng.randrange(1, 4)):
       i = rng.choice(slots); newk = rng.choice(["RTL", "CL", "CL"]); newv = rng.randrange(1, 9)
+      if i == "mc": newk = "M"
       byclass = rng.random() < 0.5
       old_k = ks[i] if isinstance(i, int) else extra[i][1]
       if byclass: newv = old_k          # replace_component( old, cls ) constructs cls with the OLD component's arguments
@@ -456,7 +484,7 @@ def run_cl2_case(sh, case):
         r2 = sh.rng("cl2in", case)
         for cyc in range(12):
           t.in_ @= r2.getrandbits(8); t.sim_tick()
-          tr.append((int(t.out), int(t.lbo) if extra["lb"] else None, int(t.tieo) if extra["tie"] else None))
+          tr.append((int(t.out), int(t.lbo) if extra["lb"] else None, int(t.tieo) if extra["tie"] else None, int(t.mco) if extra["mc"] else None))
         traces.append(tr)
       except Exception:
         traces.append("raised: " + traceback.format_exc()[-300:])
